@@ -1,4 +1,7 @@
 """C14 — each broker call gets its own response or an error."""
+import glob
+import os
+
 from decgen_tie import run_decgen
 
 
@@ -26,11 +29,29 @@ def run(c):
     if not b:
         return
     n = 420 if c.tier == "quick" else 20000
-    rc, out = c.run([b, "-out", c.build, "-seed", str(c.seed), "-n", str(n)], timeout=2400)
-    if rc != 0:
-        c.break_("corr", "c14corr harness run failed", out)
-        return
+    cmd = [b, "-out", c.build, "-seed", str(c.seed), "-n", str(n)] + os.environ.get("C14CORR_SELFTEST", "").split()
+    rc, out = c.run(cmd, timeout=3000)
     files = [l.split(" ", 1)[1] for l in out.splitlines() if l.startswith("CASEFILE ")]
+    if rc != 0 and not files:
+        # the harness died before it completed a single shard (sandbox noise: resources under load): one more attempt;
+        # the first failure stays in the log
+        c.note("c14corr exited with rc %d before producing a case file; output of the failed attempt:\n%s\n-- running it once more" % (rc, out[-4000:]))
+        c.extra["harness_rerun"] = {"rc": rc, "tail": out[-1500:]}
+        for f in glob.glob(os.path.join(c.build, "cases_c14_*")):
+            os.remove(f)
+        rc, out = c.run(cmd, timeout=3000)
+        files = [l.split(" ", 1)[1] for l in out.splitlines() if l.startswith("CASEFILE ")]
+    # a case whose infrastructure could not be set up after all retries is not an observation of the code: it is left out of
+    # the case files and reported by name as a broken tie; all other cases are kept
+    for l in out.splitlines():
+        if l.startswith("HARNESSFAIL "):
+            c.break_("corr", "c14corr: " + l[len("HARNESSFAIL "):][:300], l)
+    if rc != 0:
+        # the harness process died: still evaluate every shard it had completed
+        c.break_("corr", "c14corr harness run failed (rc %d) after %d completed shard(s)" % (rc, len(files)), out[-4000:])
+        files = [f for f in files if os.path.exists(f) and os.path.exists(f[:-2] + ".jsonl")]
+        if not files:
+            return
     for l in out.splitlines():
         if l.startswith("C14 cases="):
             c.note(l)
@@ -38,5 +59,5 @@ def run(c):
             if "panics=" in l and int(l.split("panics=")[1].split()[0]):
                 c.break_("corr", "a sarama goroutine panicked during the run (%s)" % l.strip(), out[-2000:])
             if nh:
-                c.break_("tie", "broker.go logs no verifPoint events in %d cases (hooks/c14_broker.patch not applied to %s?)" % (nh, "the tree"), l)
+                c.break_("tie", "broker.go logs no verifPoint events in %d cases (hook lines missing from broker.go of the tree?)" % nh, l)
     c.eval_cases(files, name="broker connection trace validation")
